@@ -222,12 +222,16 @@ func runPQLayout(rep *Report) {
 			}
 			sizes = append(sizes, sz)
 		}
-		line, fails := pqrun.LayoutCase(r, P, sizes)
+		line, ackLine, fails := pqrun.LayoutAckCase(r, P, sizes, true)
 		rep.Programs++
 		rep.Steps += len(sizes)
 		rep.Distinct++
 		if tw != nil && line != "" {
 			fmt.Fprintln(tw, line)
+			if ackLine != "" {
+				fmt.Fprintln(tw, ackLine)
+				rep.Markers["ackplan"]++
+			}
 		}
 		for k, f := range fails {
 			if k >= 2 {
